@@ -5,7 +5,7 @@
 (* trace.ndjson: line 1 = {"ev":"config"}; then                                              *)
 (*   {"ev":"group","items":[{"name":..,"kind":"policy"|"flow","m":[..],"h":[..],"p":[..]},..],*)
 (*    "manage_all":b}                          what the engine loaded, what it told the proxy *)
-(*   {"ev":"req","m":..,"h":[..],"p":[..],"ts":b,"engine":[names],"proxy":b}                  *)
+(*   {"ev":"req","m":..,"h":[..],"p":[..],"var":"",      "engine":[names],"proxy":b}          *)
 (*        one request: the items the real engine matched it to, whether a registered          *)
 (*        expression finds it                                                                 *)
 (* A req event is a step iff ManagedP.Verdict = "ok"; with TolerateTS = TRUE the recorded     *)
@@ -29,7 +29,7 @@ TGroup == /\ Consume("group")
           /\ mall' = Ev.manage_all
 
 TReq == /\ Consume("req")
-        /\ LET rq  == [m |-> Ev.m, u |-> Mk(Ev.h, Ev.p), ts |-> Ev.ts]
+        /\ LET rq  == [m |-> Ev.m, u |-> Mk(Ev.h, Ev.p), var |-> Ev.var]
                obs == [engine |-> SeqSet(Ev.engine), proxy |-> Ev.proxy, manageAll |-> mall]
                v   == Verdict(items, rq, obs)
            IN IF v = "ok" THEN TRUE
